@@ -37,6 +37,8 @@ bool mem_error_seen = false;
 struct Interval { int type; long fsupc; long krep; }; // type 0 = UPD (values+first copy), 1 = DFS first copy, 2 = DFS second copy
 struct TaskShadow { long panel = -1, w = 0, bcol = -1; const int_t *lbusy = nullptr; std::vector<Interval> iv; bool in_prune = false; long prune_fsupc = -1; };
 std::vector<TaskShadow> ts;
+std::vector<long> stack_marks;
+long init_events = 0;
 
 std::string fmt(const char *f, ...) __attribute__((format(printf, 1, 2)));
 std::string fmt(const char *f, ...) { char b[400]; va_list ap; va_start(ap, f); vsnprintf(b, sizeof b, f, ap); va_end(ap); return b; }
@@ -145,8 +147,17 @@ void on_sched_cs(int task, long finished, long taken, long bcol) {
 
 void on_event(int task, int kind, long pnum, long a, long b, long c, const void *ptr) {
     (void)pnum;
-    if (kind == SLU_EV_INIT) { on_init(a, ptr, c); return; }
-    if (kind == SLU_EV_STACK || kind == SLU_EV_SPIN) return;
+    if (kind == SLU_EV_INIT) { ++init_events; on_init(a, ptr, c); return; }
+    if (kind == SLU_EV_STACK) {
+        // user-workspace model: 0 <= top1 <= top2 <= size, used consistent
+        const int_t *st = (const int_t *)ptr; long size = st[0], used = st[1], top1 = st[2], top2 = st[3];
+        stack_marks.push_back(used);
+        if (!(0 <= top1 && top1 <= top2 && top2 <= size)) viol("C14", "workspace_stack_pointers", fmt("after op %ld: top1=%ld top2=%ld size=%ld", a, top1, top2, size));
+        if (used < 0 || used > size) viol("C14", "workspace_stack_used", fmt("after op %ld: used=%ld size=%ld", a, used, size));
+        probes["stack_events"]++;
+        return;
+    }
+    if (kind == SLU_EV_SPIN) return;
     if (!inited) return;
     TaskShadow &me = T(task);
     switch (kind) {
@@ -302,9 +313,11 @@ void on_event(int task, int kind, long pnum, long a, long b, long c, const void 
 } // namespace
 
 long monitor_first_zero_col() { return first_zero_col; }
+const std::vector<long> &monitor_stack_marks() { return stack_marks; }
+long monitor_init_events() { return init_events; }
 
 void monitor_install() { sim::event_cb = on_event; }
-void monitor_begin_op(const Case &, const OpSpec &, int opi) { cur_op = opi; shared = nullptr; options = nullptr; Glu = nullptr; inited = false; first_zero_col = -1; }
+void monitor_begin_op(const Case &, const OpSpec &, int opi) { stack_marks.clear(); init_events = 0; cur_op = opi; shared = nullptr; options = nullptr; Glu = nullptr; inited = false; first_zero_col = -1; }
 
 void monitor_end_op(Outcome &out, int opi, long info) {
     (void)out; (void)opi;
